@@ -6,6 +6,7 @@
 import TvNetTable.Proofs.TableLemmas
 import TvNetTable.Proofs.Egress
 import TvNetTable.Proofs.Reach
+import TvNetTable.Proofs.LiveOps5
 
 namespace TV
 namespace C17
@@ -403,6 +404,82 @@ theorem C17_partial (k : Kernel) (ip : Ip) (port : Nat) (tcp : Bool) (hp : port 
       exact absurd herr (by simp)
   · intro hex
     exact hb.2.2.1 hloc hex
+
+/-! ### the repaired model: no socket without an owner (network side, all histories)
+
+  `Live k owned` (Proofs/Live.lean): the index invariant `TInv`, the connection index points at
+  sockets bound to the connection's local endpoint, listeners are application-owned TCB-less
+  stream sockets that are not closed, and **every socket of the table is live**: held by an
+  application handle (`owned`), or lingering after its application closed it (`fd_closed`), or an
+  unaccepted child of a live listener — still `SynReceived` with a listener bound to its endpoint
+  (exactly or by wildcard), or waiting in some listener's accept queue.  An aborted orphan as in
+  F-C17-1 is none of these. -/
+
+/-- **No network event creates an orphan** (repaired model, `fixReap = true`): from any live state,
+    any sequence of packet deliveries — arbitrary packets, any flags, any addresses — and egress
+    passes (retransmission sweep with its aborts, FIN emission, loopback fold-back, reaping)
+    leaves every socket live, with the same set of application handles. -/
+theorem C17_fixed_network (k : Kernel) (owned : List Fd) (h : Live k owned) (evs : List Kernel.NetEvent) :
+    Live (Kernel.netRun k evs) owned :=
+  Kernel.live_netRun k owned evs h
+
+/-- In a live state a bind refused with `AddrInUse` is refused because of a **live** socket: one
+    that an application still holds, that is lingering, or that is an unaccepted child of a live
+    listener. -/
+theorem C17_fixed_conflict_live (k : Kernel) (owned : List Fd) (h : Live k owned) (ip : Ip) (port : Nat)
+    (tcp : Bool) (hp : port ≠ 0) (hloc : ip.isUnspec = true ∨ k.isLocal ip = true)
+    (herr : k.bind ip port tcp = .error .addrInUse) :
+    ∃ s ∈ k.tbl.socks, ∃ b, s.bound = some b ∧ Spec.conflicts b ⟨ip.v6, tcp, ip, port⟩ = true ∧
+      LiveSock k.tbl owned s := by
+  obtain ⟨s, hs, b, hb, hc⟩ :=
+    (conflict_iff_socket k.tbl h.tinv _).mp ((C17_partial k ip port tcp hp hloc).mp herr)
+  exact ⟨s, hs, b, hb, hc, h.live s hs⟩
+
+/-- The witness family of F-C17-1, generalised: from any live state, open a listener (any
+    address, any port incl. 0), then let the network do anything at all; the state stays live, so a
+    later `AddrInUse` can only come from a live socket (`C17_fixed_conflict_live`). -/
+theorem C17_fixed_listener (k : Kernel) (owned : List Fd) (h : Live k owned) (ip : Ip) (port : Nat)
+    (k' : Kernel) (fd : Fd) (hb : k.bind ip port true = .ok (k', fd)) (evs : List Kernel.NetEvent) :
+    Live (Kernel.netRun (k'.listen fd) evs) (fd :: owned) :=
+  Kernel.live_netRun _ _ evs (Kernel.live_tlisten k owned ip port k' fd hb h)
+
+/-- `C17_fixed` for all histories is not reached: **`C17_fixed_partial`** = the conjunction of what
+    is proved about the repaired model for every state and every history of the kinds covered.
+    Covered: the empty table is live; `bind` (UDP and TCP, explicit port and port 0),
+    `TcpListener::bind`, UDP connect / send / receive, delivery of any packet and `egress`
+    preserve `Live`.  Missing: the application calls `connect` (first poll), `accept` and `close`
+    (reap, linger, close-listener) are not yet shown to preserve `Live`; close-listener needs one
+    more invariant (accept-queue entries are fds below the counter of sockets that do not
+    listen), see NOTES. -/
+theorem C17_fixed_partial (k : Kernel) (owned : List Fd) (h : Live k owned) :
+    (∀ evs, Live (Kernel.netRun k evs) owned) ∧
+    (∀ ip port tcp k' fd, k.bind ip port tcp = .ok (k', fd) → Live k' (fd :: owned)) ∧
+    (∀ ip port k' fd, k.bind ip port true = .ok (k', fd) → Live (k'.listen fd) (fd :: owned)) ∧
+    (∀ fd peer k', k.udpConnect fd peer = .ok k' → Live k' owned) ∧
+    (∀ fd dst tag k', k.udpSendTo fd dst tag = .ok k' → Live k' owned) ∧
+    (∀ fd k' e tag, k.recvFrom fd = some (k', e, tag) → Live k' owned) :=
+  ⟨fun evs => Kernel.live_netRun k owned evs h,
+   fun ip port tcp k' fd hb => (Kernel.live_bind k owned ip port tcp k' fd hb h).1,
+   fun ip port k' fd hb => Kernel.live_tlisten k owned ip port k' fd hb h,
+   fun fd peer k' hk => Kernel.live_udpConnect k owned fd peer k' hk h,
+   fun fd dst tag k' hk => Kernel.live_udpSendTo k owned fd dst tag k' hk h,
+   fun fd k' e tag hk => Kernel.live_recvFrom k owned fd k' e tag hk h⟩
+
+/-- non-vacuity: a fresh repaired kernel is live, and so is it after `TcpListener::bind`, a SYN,
+    the RST that kills the half-open child, and an egress pass -/
+example : Live ({ addrs := [⟨false, 10⟩], fixReap := true } : Kernel) [] :=
+  Kernel.live_empty _ rfl rfl
+
+example (k' : Kernel) (fd : Fd)
+    (hb : ({ addrs := [⟨false, 10⟩], fixReap := true } : Kernel).bind ⟨false, 10⟩ 80 true = .ok (k', fd)) :
+    Live (Kernel.netRun (k'.listen fd)
+      [.deliver ⟨⟨⟨false, 20⟩, 41001⟩, ⟨⟨false, 10⟩, 80⟩, .tcp true false false false⟩,
+       .deliver ⟨⟨⟨false, 20⟩, 41001⟩, ⟨⟨false, 10⟩, 80⟩, .tcp false false false true⟩, .egress]) [fd] :=
+  C17_fixed_listener _ [] (Kernel.live_empty _ rfl rfl) ⟨false, 10⟩ 80 k' fd hb _
+
+/-- the hypothesis of the previous example is satisfiable: that bind succeeds -/
+example : (match ({ addrs := [⟨false, 10⟩], fixReap := true } : Kernel).bind ⟨false, 10⟩ 80 true with
+    | .ok _ => true | .error _ => false) = true := by decide
 
 end C17
 end TV
